@@ -64,9 +64,16 @@ func NewDB(conn *sql.DB, schema *Schema) *DB {
 			table := items[0].(*BaseSelectQuery).Table
 
 			// First, build the SQL query.
+			// The filters are serialized first, like makeWhere does, so that the
+			// batched clause sends the values a stand-alone query would send and
+			// sees every NULL (nil, nil pointers, implicitnull zero values).
 			filters := make([]Filter, 0, len(items))
 			for _, item := range items {
-				filters = append(filters, item.(*BaseSelectQuery).Filter)
+				f, err := table.driverValues(item.(*BaseSelectQuery).Filter)
+				if err != nil {
+					return nil, err
+				}
+				filters = append(filters, f)
 			}
 			clause, args := makeBatchQuery(filters)
 			query, err := db.Schema.makeSelect(table.Type, nil, &SelectOptions{
